@@ -144,6 +144,8 @@ func runC11case(cs c11case) (o c11out) {
 		info = runC11onx(env, true)
 	case "hidden-onopen":
 		info = runC11hiddenOnOpen(env)
+	case "escalate-matrix":
+		info = runC11escalateMatrix(env)
 	case "system-ssh":
 		info = runC11system(env, false)
 	case "system-netconf":
@@ -464,10 +466,10 @@ func closeQuietly(f func() error) {
 
 func runC11(c *ctx) {
 	res := c.res
-	res.Rule = "sessions judged on every logger message (debug/info/critical) and the channel log. Kinds: platform cisco_iosxe on-open + escalation (device asks / does not ask / rejects; down to exec, up to configuration, tclsh and back); in-channel telnet and ssh logins over simulators (0-3 rejections, wrong password, key passphrase right/wrong; refusal styles: message, silent re-prompt, silence, 13 ssh error lines); NETCONF with in-channel password/passphrase; the REAL system transport (exec+pty) with this binary as stand-in ssh (password prompt without echo, refusals, key file ok/unusable/missing/with passphrase, known-hosts/config/strict options, extra args and argv override, missing binary; CLI and NETCONF) whose logged argv line is judged; the REAL standard transport (crypto/ssh) against an in-process SSH server (password / keyboard-interactive accepted, refused, unusable or passphrase-protected key); platform on-open redacted write; platform on-open / on-close sequences (generic and network layer, block and flow spelling) whose redacted input is not a YAML string or whose operation is malformed; on-open / on-close functions that return the error of a hidden SendInteractive dialogue; hidden interactive events (fuzzy / exact input matching, refusing operation options). Faults: write failure / session drop / silence at the secret, failure of the write after it, failure or drop at the k-th write. Logging: default, custom and quoting formatter, two loggers, upper-case level, unknown level word, no logger, options.WithDefaultLogger (log.Print captured process wide), with and without channel log. Secrets: unique core + format verbs, quotes, regex metacharacters, braces, tabs, words the device prints, up to ~3.7 kB. Plus: logging.Instance level filter and WithLevel vs the Lean model (exhaustive over level words x 0-3 loggers x six methods). non-trivial = a secret was transmitted redacted, or the driver logged an error value, or the system transport's argv line was judged, or the level is not debug; distinct by seed"
+	res.Rule = "sessions judged on every logger message (debug/info/critical) and the channel log. Kinds: platform cisco_iosxe on-open + escalation (device asks / does not ask / rejects; down to exec, up to configuration, tclsh and back); escalation over level definitions with every combination of escalate-auth x escalate-prompt empty/set (synthetic IOS-like and sudo-like, embedded cumulus_linux and its root_login variant) x secondary secret configured or not x device asks / does not ask / refuses; in-channel telnet and ssh logins over simulators (0-3 rejections, wrong password, key passphrase right/wrong; refusal styles: message, silent re-prompt, silence, 13 ssh error lines); NETCONF with in-channel password/passphrase; the REAL system transport (exec+pty) with this binary as stand-in ssh (password prompt without echo, refusals, key file ok/unusable/missing/with passphrase, known-hosts/config/strict options, extra args and argv override, missing binary; CLI and NETCONF) whose logged argv line is judged; the REAL standard transport (crypto/ssh) against an in-process SSH server (password / keyboard-interactive accepted, refused, unusable or passphrase-protected key); platform on-open redacted write; platform on-open / on-close sequences (generic and network layer, block and flow spelling) whose redacted input is not a YAML string or whose operation is malformed; on-open / on-close functions that return the error of a hidden SendInteractive dialogue; hidden interactive events (fuzzy / exact input matching, refusing operation options). Faults: write failure / session drop / silence at the secret, failure of the write after it, failure or drop at the k-th write. Logging: default, custom and quoting formatter, two loggers, upper-case level, unknown level word, no logger, options.WithDefaultLogger (log.Print captured process wide), with and without channel log. Secrets: unique core + format verbs, quotes, regex metacharacters, braces, tabs, words the device prints, up to ~3.7 kB. Plus: logging.Instance level filter and WithLevel vs the Lean model (exhaustive over level words x 0-3 loggers x six methods). non-trivial = a secret was transmitted redacted, or the driver logged an error value, or the system transport's argv line was judged, or the level is not debug; distinct by seed"
 	kinds := []string{"escalate-ask", "escalate-ask", "escalate-noask", "escalate-reject", "telnet", "telnet", "ssh", "ssh", "ssh-passphrase", "ssh-passphrase", "platform-redacted", "interactive-hidden-failed", "interactive-hidden-ok",
 		"onx-generic", "onx-generic", "onx-network", "onx-network", "hidden-onopen",
-		"system-ssh", "system-netconf", "netconf-inchannel", "netconf-inchannel", "standard-ssh"}
+		"system-ssh", "system-netconf", "netconf-inchannel", "netconf-inchannel", "standard-ssh", "escalate-matrix", "escalate-matrix", "escalate-matrix", "escalate-matrix"}
 	var cases []c11case
 	if c.replay == "" || strings.HasPrefix(c.replay, "c11log") {
 		c11logLevels(c)
@@ -485,7 +487,7 @@ func runC11(c *ctx) {
 		}
 		cases = []c11case{cs}
 	} else {
-		for i := 0; i < c.n(900, 16000); i++ {
+		for i := 0; i < c.n(980, 17000); i++ {
 			cs := c11case{seed: c.rng.U64(), kind: kinds[c.rng.Intn(len(kinds))], level: []string{"debug", "debug", "info", "critical"}[c.rng.Intn(4)]}
 			cs.rejects = []int{0, 0, 1, 2, 3, 9}[c.rng.Intn(6)]
 			cs.fault = []string{"", "", "", "", "wfail-secret", "eof-secret", "wfail-return", "wfail-n", "eof-n", "silent-secret"}[c.rng.Intn(10)]
